@@ -18,6 +18,7 @@ DECIDED = ("R1 the per-square castling-right masks equal their definition for al
            "after Black; R6 the checked operations call the unchecked one only under is_legal(mv) of the same board and move, and on refusal store nothing and return false/None.")
 DECIDED = DECIDED + " R1/R2 also: the castling rights of the successor are read off the final value of the field - the mover's rights and-ed with exactly the masks (opponent, dest) and (mover, source) - whatever helper did it (`&mut self` method, by-value method returning Self, code in place); every function that reads the per-square mask table computes rights & MASK[colour][square]."
 DECIDED = DECIDED + ' R7 PromotionPiece::to_piece and From<PromotionPiece> for Piece map every variant to the Piece of the same name (evaluated on the four variants; match or table form).'
+DECIDED = DECIDED + ' R8 the accessors the summary keeps opaque are evaluated: piece_of_unchecked / color_of over every membership case, king_sq = member of colors[c] & kings, enpassant_pos = ep().map(file on the capture rank of the side to move), get / piece_of = composition of the two.'
 NOT_DECIDED = ("that the xor arithmetic on concrete boards yields the prescribed placement for every legal move (the semantics of the toggles on real positions, e.g. that "
                "`mv_bb & PAWN_DOUBLE_MOVE[turn] == mv_bb` holds exactly for double steps, rests on C09's constants and on legality of the move); "
                "'accept exactly the legal moves' reduces to C01 through R6")
@@ -347,6 +348,115 @@ def r7(ctx):
                 bad.append((n, f"{T.short(k)}({n}) = {T.show(r) if isinstance(r, tuple) else r}, expected Piece::{n}"))
         ctx.bulk(f"{T.short(k)[:60]} on every variant", len(P.enum_variants(PP)), bad, "a promotion piece is converted to a different piece",
                  sample={"variants": [n for n, _ in P.enum_variants(PP)]})
+
+
+@rule("C02.R8", "the board accessors the make-move summary keeps opaque: king square, piece / colour on a square, en-passant square")
+def r8(ctx):
+    """The path summary of make-move trusts these small functions; each is evaluated here: the set memberships (a square is in exactly one piece
+    set and one colour set) over every case, the others as terms."""
+    P = ctx.P
+    g = R.Geo(P)
+    RB, BD = MG + "raw::RawBoard", MG + "Board"
+    CONT = "chess_bitboard::BitBoard::contains"
+    PC, CO = "chess_bitboard::piece::Piece", "chess_bitboard::color::Color"
+    pidx = {d: n for n, d in P.enum_variants(PC)}
+    cidx = {d: n for n, d in P.enum_variants(CO)}
+    OPQ = {CONT, "chess_bitboard::BitBoard::pop_unchecked", BD + "::ep", "chess_bitboard::pos::Pos::new", "chess_bitboard::color::Color::enpassant_capture_rank",
+           RB + "::color_of", RB + "::piece_of_unchecked"}
+    slf, pos = ("param", 0, "self"), ("param", 1, "a1")
+
+    def members(bbterm, fieldname):
+        """indices i such that the set term is the union of self.<fieldname>[i] (None if it is anything else)"""
+        w = bbterm[3][0] if bbterm[0] == "adt" else ("field", bbterm, "0")
+        parts, work = [], [w]
+        while work:
+            x = work.pop()
+            if x[0] == "bin" and x[1] == "BitOr":
+                work += [x[2], x[3]]
+            else:
+                parts.append(x)
+        out = set()
+        for x in parts:
+            if x[0] == "field" and x[2] in ("0", 0) and x[1][0] == "index" and x[1][1] == ("field", ("obj", slf), fieldname) and T.is_const(x[1][2]):
+                out.add(x[1][2][1])
+            else:
+                return None
+        return out
+
+    def decide(key, fieldname, cases, want):
+        """evaluate the membership tests of `key` for every case (the one index the square belongs to, or None)"""
+        ctx.used_body(key)
+        lv = T.Engine(P, opaque=OPQ - {key}).tabulate(key)
+        bad = []
+        for case in cases:
+            hits = []
+            for lf in lv:
+                ok = True
+                for t_, v in lf.cond:
+                    if t_[0] == "app" and t_[1] == CONT and t_[2][1] == pos:
+                        ms = members(t_[2][0], fieldname)
+                        if ms is None:
+                            ok = None
+                            break
+                        if (case in ms) != bool(v):
+                            ok = False
+                            break
+                    elif t_[0] == "assert":
+                        continue
+                    else:
+                        ok = None
+                        break
+                if ok is None:
+                    bad.append((str(case), f"{T.short(key)}: a path tests something other than membership of the square in {fieldname}[..]: {T.show_cond(lf.cond)[:120]}"))
+                    break
+                if ok:
+                    hits.append(lf.ret)
+            else:
+                if len(hits) != 1 or hits[0] != want(case):
+                    bad.append((str(case), f"{T.short(key)} with the square in {fieldname}[{case}] only returns {[T.show(h) for h in hits]}, expected {T.show(want(case))}"))
+        ctx.bulk(f"{T.short(key)} on every case", len(cases), bad, "an accessor names the wrong set", sample={"cases": len(cases)})
+
+    decide(RB + "::piece_of_unchecked", "pieces", sorted(pidx), lambda i: ("adt", PC, pidx[i], ()))
+    decide(RB + "::color_of", "colors", sorted(cidx) + [None],
+           lambda i: T.OPT_NONE if i is None else ("adt", "core::option::Option", "Some", (("adt", CO, cidx[i], ()),)))
+    # king_sq(c): the (only) member of colors[c] & pieces[King]
+    k = BD + "::king_sq"
+    ctx.used_body(k)
+    eng = T.Engine(P, opaque=OPQ)
+    lv = [lf for lf in eng.tabulate(k)]
+    board = ("obj", slf)
+    kd = [d for d, n in pidx.items() if n == "King"][0]
+    want = eng.binop("BitAnd", ("field", ("index", ("field", ("field", board, "raw"), "colors"), ("cast", "usize", ("discr", pos))), "0"),
+                     ("field", ("index", ("field", ("field", board, "raw"), "pieces"), T.I(kd, "usize")), "0"))
+    ok = len(lv) == 1 and lv[0].ret[0] == "app" and lv[0].ret[1].endswith("pop_unchecked")
+    if ok:
+        a = lv[0].ret[2][0]
+        a = a[1] if a[0] in ("refv", "ref") else a
+        w = a[3][0] if a[0] == "adt" else a
+        ok = canon(w) == canon(want)
+    ctx.ob("king_sq", ok, f"king_sq(colour) is {[T.show(l.ret)[:140] for l in lv]}; expected the member of colors[colour] & pieces[King]", site=P.body(k).get("def_span"), sample="pop(colors[c] & kings)")
+    # enpassant_pos: the marked file on the capture rank of the side to move
+    k = BD + "::enpassant_pos"
+    if k in P.fns:
+        ctx.used_body(k)
+        lv = eng.tabulate(k)
+        epv = ("app", BD + "::ep", (("refv", board),))
+        want_some = ("adt", "core::option::Option", "Some", (("app", "chess_bitboard::pos::Pos::new", (("vfield", epv, "Some", 0), ("app", "chess_bitboard::color::Color::enpassant_capture_rank", (("field", board, "turn"),)))),))
+        got = {dict(((t_, v) for t_, v in lf.cond if t_ == ("discr", epv))).get(("discr", epv)): lf.ret for lf in lv}
+        ctx.ob("enpassant_pos", got == {"None": T.OPT_NONE, "Some": want_some}, f"enpassant_pos is {[(k_, T.show(v)[:120]) for k_, v in got.items()]}; expected ep().map(|f| Pos::new(f, turn.enpassant_capture_rank()))",
+               site=P.body(k).get("def_span"))
+    # get(pos) = color_of(pos).map(|c| (c, piece_of_unchecked(pos)));  piece_of likewise
+    for k, second in ((RB + "::get", True), (RB + "::piece_of", False)):
+        if k not in P.fns:
+            continue
+        ctx.used_body(k)
+        lv = eng.tabulate(k)
+        cov = ("app", RB + "::color_of", (("refv", ("obj", slf)), pos))
+        pov = ("app", RB + "::piece_of_unchecked", (("refv", ("obj", slf)), pos))
+        payload = ("tuple", (("vfield", cov, "Some", 0), pov)) if second else pov
+        got = {dict(((t_, v) for t_, v in lf.cond if t_ == ("discr", cov))).get(("discr", cov)): lf.ret for lf in lv}
+        ctx.ob(T.short(k), got == {"None": T.OPT_NONE, "Some": ("adt", "core::option::Option", "Some", (payload,))},
+               f"{k} is {[(k_, T.show(v)[:120]) for k_, v in got.items()]}; expected None on an empty square, else the colour / piece found there", site=P.body(k).get("def_span"))
 
 
 # ------------------------------------------------------------------ controls
